@@ -8,6 +8,7 @@ frames := `<nf> {<fidx> <vidx> <eff> <np> {<id> <val>}ⁿᵖ}ⁿᶠ`
 `gen <B> <mi|-> frames`    → same format                      (`predictGen B (centroidCrop mi)`)
 `bu  frames`               → `ok <nf> {<fidx> <vidx> <eff> <n> <id>ⁿ}ⁿᶠ`   (`bottomupRecords`, group = ids, decode = pair)
 `keeptop <mi|-> <np> {<id> <val>}` → `ok <id>…`                        (`keepTop`)
+`mode <single|topdown|bottomup> <cur:eval|train>` → `ok <mode under the repaired wrapper> <mode as coded>`
 `chunks <B> <n>`           → `ok <size>…`
 `topk <k> <np> {<id> <val>}` → `ok <id>…`
 -/
@@ -52,6 +53,14 @@ def handle (line : String) : String :=
     match runP (do let mi ← onat; let ps ← listOf peakP; pure (mi, ps)) rest with
     | some (mi, ps) => "ok " ++ natsStr ((keepTop mi ps).map (·.pt))
     | none => "bad-op"
+  | ["mode", k, c] =>
+    let kind? : Option Kind := match k with
+      | "single" => some .single | "topdown" => some .topdown | "bottomup" => some .bottomup | _ => none
+    let cur? : Option Mode := match c with | "eval" => some .eval | "train" => some .train | _ => none
+    let str : Mode → String := fun m => match m with | .eval => "eval" | .train => "train"
+    match kind?, cur? with
+    | some kind, some cur => s!"ok {str (modeOf (forcesEvalFixed kind) cur)} {str (modeOf (forcesEvalAsIs kind) cur)}"
+    | _, _ => "bad-op"
   | "chunks" :: rest =>
     match runP (do let b ← nat; let n ← nat; pure (b, n)) rest with
     | some (b, n) => "ok " ++ natsStr ((chunks b (List.range n)).map (·.length))
